@@ -28,11 +28,16 @@ THEOREMS = ['split_gather_id', 'gather_split_id', 'reduce_scatter_as_scatter', '
 NOTES = 'Model mirrors the code after fixes D6 (fresh receive buffers) and D12 (column-parallel without bias).'
 
 
-def gen(rng, tier):
+def gen(rng, tier, k=None):
     tops = [(1, 1, 1), (1, 2, 1), (1, 1, 2), (1, 2, 2), (1, 4, 1), (1, 1, 4), (1, 2, 4), (1, 4, 2)]
     if tier == 'thorough':
         tops += [(2, 2, 2), (2, 1, 2), (2, 2, 1), (1, 4, 4)]
     P, D, M = rng.choice(tops)
+    forced = k is not None and k % 7 == 3
+    if forced:
+        # stratum: model-parallel degree 1, a layer WITHOUT bias, second-order data in the gradient dtype, clipping active - the
+        # preconditioned gradient must not alias the module's gradient (no converting copy separates them in this combination)
+        P, D, M = rng.choice([(1, 1, 1), (1, 2, 1), (1, 4, 1)])
     layers = []
     for _ in range(rng.randint(1, 3)):
         kind = rng.choice(['col', 'row'])
@@ -44,8 +49,12 @@ def gen(rng, tier):
            'kl_clip': rng.choice([None, None, 0.001]),
            'allreduce_bucket_cap_mb': rng.choice([0.0, 25.0]), 'factor_update_steps': 1, 'inv_update_steps': rng.choice([1, 1, 2]),
            'accumulation_steps': 1}
-    if rng.random() < 0.35:         # second-order data in the dtype of the gradients (no converting copy between them)
+    if rng.random() < 0.35 or forced:         # second-order data in the dtype of the gradients (no converting copy between them)
         cfg['inv_dtype'] = 'float64'
+    if forced:
+        cfg['kl_clip'] = 0.001
+        i = rng.randrange(len(layers))
+        cfg['layers'][i] = layers[i][:3] + (0,)
     hist = [['train', 1] for _ in range(rng.randint(1, 3))]
     if rng.random() < 0.3:          # a damping schedule with inverses reused across steps: the CURRENT damping must be used (plain eigen path)
         cfg['damping'] = ['table', [rng.choice([0.5, 0.25, 1.0, 2.0]) for _ in range(6)]]
@@ -69,7 +78,7 @@ def run(tier, seed, rng):
     n = 50 if tier == 'quick' else 500
     worst = 0.0
     for k in range(n):
-        cfg, hist = gen(rng, tier)
+        cfg, hist = gen(rng, tier, k)
         P, D, M = cfg['P'], cfg['D'], cfg['M']
         W = P * D * M
         w = neoxrun.run(cfg, hist, seed=seed + k, policy=rng.choice(['random', 'rr', 'ahead']))
